@@ -18,6 +18,9 @@ pub struct Plan {
     /// fault enumeration (C08): number of base histories (quick, thorough) for which the end of actor 0's
     /// persistent session is injected before every operation, in each of the four flavours
     pub enumerate_session_end: Option<(u64, u64, Profile)>,
+    /// exhaustive small scope (C03): every sequence of at most (quick, thorough) symbols of the abstract
+    /// event alphabet `History::symbol` behind a fixed prologue
+    pub enumerate_symbols: Option<(u8, u8, Profile)>,
 }
 
 pub fn s5_default(hostile: bool, group_members: usize) -> crate::sub::s5::Plan {
@@ -97,6 +100,49 @@ pub fn run(ctx: &Ctx, plan: &Plan) -> Stats {
         stats.merge(more);
         stats.exhaustive_scopes.push("C08: for every base history, session end injected before every operation x 4 flavours (DISCONNECT, link failure, router-initiated close, take-over)".into());
     }
+    if let Some((q, t, profile)) = &plan.enumerate_symbols {
+        let max_len = if ctx.quick() { *q } else { *t } as usize;
+        let n = History::SYMBOLS as usize;
+        // all sequences of length 1..=max_len, numbered in base n
+        let mut seqs: Vec<Vec<u8>> = vec![];
+        for len in 1..=max_len {
+            let total = n.pow(len as u32);
+            for code in 0..total {
+                let mut c = code;
+                let mut v = Vec::with_capacity(len);
+                for _ in 0..len {
+                    v.push((c % n) as u8);
+                    c /= n;
+                }
+                seqs.push(v);
+            }
+        }
+        let shards = if ctx.quick() { ctx.threads.min(8) } else { ctx.threads };
+        let more = sharded(ctx, shards, |shard, _seed| {
+            let mut st = Stats::default();
+            for (i, seq) in seqs.iter().enumerate() {
+                if i % shards != shard {
+                    continue;
+                }
+                let mut h = History::new(ctx.seed, profile, Some(Triggers::all()));
+                h.triggered = true;
+                h.symbols = seq.clone();
+                h.prologue();
+                for sym in seq {
+                    h.symbol(*sym);
+                }
+                h.finish();
+                judge_history(ctx, &mut st, &h);
+                st.add_extra("enumerated_symbol_sequences", 1);
+                if st.violations.len() >= 3 {
+                    break;
+                }
+            }
+            st
+        });
+        stats.merge(more);
+        stats.exhaustive_scopes.push(format!("C03: every sequence of at most {max_len} symbols over the {n}-symbol abstract event alphabet behind a fixed prologue ({} sequences)", seqs.len()));
+    }
     if let Some((q, t, s5plan)) = &plan.s5 {
         // OS-thread interleavings: real Router::spawn() + client threads, offline checker
         let rounds = ctx.size(*q, *t);
@@ -154,7 +200,8 @@ pub fn replay(ctx: &Ctx, plan: &Plan, doc: &Value) -> Stats {
     let seed = doc["case_seed"].as_u64().unwrap_or(0);
     let name = doc["profile"].as_str().unwrap_or("");
     let enum_profile = plan.enumerate_session_end.as_ref().map(|x| &x.2);
-    let Some(profile) = plan.profiles.iter().chain(enum_profile).find(|p| p.name == name) else {
+    let sym_profile = plan.enumerate_symbols.as_ref().map(|x| &x.2);
+    let Some(profile) = plan.profiles.iter().chain(enum_profile).chain(sym_profile).find(|p| p.name == name) else {
         stats.inconclusive.push(format!("replay: unknown profile {name}"));
         return stats;
     };
@@ -162,6 +209,28 @@ pub fn replay(ctx: &Ctx, plan: &Plan, doc: &Value) -> Stats {
     let mut h = History::new(seed, profile, if forced { Some(Triggers::default()) } else { None });
     if forced {
         h.triggered = false;
+    }
+    if let Some(syms) = doc["symbols"].as_array() {
+        if !syms.is_empty() {
+            let enum_profile = plan.enumerate_symbols.as_ref().map(|x| &x.2);
+            if let Some(p) = enum_profile {
+                let mut h = History::new(seed, p, Some(Triggers::all()));
+                h.verbose = true;
+                h.prologue();
+                for v in syms {
+                    h.symbol(v.as_u64().unwrap_or(0) as u8);
+                }
+                h.finish();
+                judge_history(ctx, &mut stats, &h);
+                for l in h.oplog.iter() {
+                    println!("  {l}");
+                }
+                for r in h.records.iter() {
+                    println!("  => [{}/{}] {}", r.property, r.oracle, r.message);
+                }
+                return stats;
+            }
+        }
     }
     if let Some(inj) = doc["inject"].as_array() {
         if inj.len() == 2 {
